@@ -16,7 +16,10 @@ def gen_case(rng, thorough):
         r = rng.random()
         if r < 0.45 or not live:
             owner, hook = rng.randrange(ncls), rng.randrange(nhooks)
-            wrapper = rng.random() < 0.3
+            # every wrapper re-enters the whole chain once: k live wrappers on one hook cost 2^k invocations (model and implementation alike);
+            # keep at most five per hook so that a case stays small
+            nwrap = sum(1 for o in ops if o[0] == 'register' and o[2]['wrapper'] and o[2]['hook'] == hook)
+            wrapper = rng.random() < 0.3 and nwrap < 5
             tier = rng.choice([0, 1, 1, 2])
             if wrapper:
                 post = rng.choice([('add', rng.randint(1, 9)), ('add', 10 * rng.randint(1, 9)), ('id',), ('isnone',),
